@@ -210,6 +210,120 @@ Example C20_curcb_is_cursor : forall a rmode,
   CbCursor (CurCb a rmode 0 0) a (fun s p => cu_pos s = p /\ p <= len a).
 Proof. exact curcb_cursor. Qed.
 
+(* ====================================================================================== *)
+(* Tie A, level 1 (work package capiT): gen/Src3a.v is bindings/C/src/lib.rs translated statement by
+   statement on this run (tools/src2v3_capi.py): null checks in program order, `*h = null_mut()` where it
+   stands, Box::from_raw / Box::leak pairing on every path (DanglingHandle), MLAStatus::from arm by arm,
+   the callback adapters.  SrcTie3CApi.v: the translation IS the model, for all inputs.  States are
+   compared slot by slot (cst_eq; the ghost history c_done is not part of the C state). *)
+From MLA Require SrcTie3CApi.
+From MLAGen Require Src3a.
+Import SrcTie3CApi.
+
+(* MLAStatus::from(MLAError): all arms (every variant of mla::errors::Error), never Success, injective;
+   on the errors the writer / reader models produce it is st_of_err / st_of_phase / st_of_rerr *)
+Theorem C20_tie_status_from_error :
+  (forall fin e, Src3a.status_from_error (mla_of_err fin e) = st_of_err fin e) /\
+  (forall ph, Src3a.status_from_error (mla_of_phase ph) = st_of_phase ph) /\
+  (forall e, Src3a.status_from_error (mla_of_rerr e) = st_of_rerr e) /\
+  (forall e, In e Src3a.all_MLAError) /\
+  map Src3a.status_from_error Src3a.all_MLAError =
+    [IOError; WrongMagic; UnsupportedVersion; InvalidECCKeyFormat; WrongBlockSubFileType; UTF8ConversionError;
+     FilenameTooLong; WrongArchiveWriterState; AssertionError; WrongReaderState; WrongWriterState; PrivateKeyNeeded;
+     DeserializationError; SerializationError; MissingMetadata; BadAPIArgument; EndOfStream;
+     CfgIncoherentPersistentConfig; CfgCompressionLevelOutOfRange; CfgEncryptionKeyIsMissing; CfgPrivateKeyNotSet;
+     CfgPrivateKeyNotFound; CfgECIESComputationError; DuplicateFilename; AuthenticatedDecryptionWrongTag;
+     HKDFInvalidKeyLength] /\
+  (forall e, Src3a.status_from_error e <> Success) /\
+  (forall e e', Src3a.status_from_error e = Src3a.status_from_error e' -> e = e').
+Proof.
+  exact (conj status_from_error_src (conj status_from_phase_src (conj status_from_rerr_src (conj all_MLAError_complete
+         (conj status_from_error_table (conj status_from_error_not_success status_from_error_injective)))))).
+Qed.
+
+(* the callback adapters *)
+Theorem C20_tie_cb_write : forall ev buf,
+  wres_of (Src3a.CallbackOutput_write (raw_of_ev ev) (len buf)) = fst (cb_write ev buf).
+Proof. exact cb_write_src. Qed.
+(* for EVERY callback behaviour: non-zero return code => io::Error of the kind of that OS code, whatever
+   *bytes_written holds; the kind is Interrupted exactly for code 4 (K20-EINTR is in the source) *)
+Theorem C20_tie_cb_write_failure : forall ret w n, ret <> 0 ->
+  Src3a.CallbackOutput_write (fun _ => (ret, w)) n = Src3a.IoRErr (Src3a.from_raw_os_error ret).
+Proof. exact cb_write_failure_is_error_src. Qed.
+Theorem C20_tie_eintr : Src3a.from_raw_os_error EINTR = Src3a.IoInterrupted /\
+  forall e, Src3a.from_raw_os_error e = Src3a.IoInterrupted -> e = EINTR.
+Proof. exact eintr_is_interrupted_src. Qed.
+Theorem C20_tie_cbin_rd : forall C s n, read_view (Src3a.CallbackInputRead_read C s n) = cbin_rd C s n.
+Proof. exact cbin_rd_src. Qed.
+Theorem C20_tie_cbin_sk : forall (C : cbsrc) (hs : bool) (s : cb_st C) (w : whence),
+  seek_view (@Src3a.CallbackInputRead_seek (cb_st C) (if hs then Some (cb_seek C) else None) s w) = cbin_sk C hs s w.
+Proof. exact cbin_sk_src. Qed.
+
+(* the eleven writing-side entry points = capi_step, under the trusted primitive table model_prims *)
+Theorem C20_tie_entry_points : forall FNMAX TS TC TA TE H order,
+  let MP := model_prims FNMAX TS TC TA TE H order in
+  let step := capi_step FNMAX TS TC TA TE H order true in
+  (forall s out, sim (Src3a.mla_config_default_new MP s out) (step s (CConfigNew out))) /\
+  (forall s c k, sim (Src3a.mla_config_add_public_keys MP s c k) (step s (CAddPub c k))) /\
+  (forall s c l, sim (Src3a.mla_config_set_compression_level MP s c l) (step s (CSetLevel c l))) /\
+  (forall s out, sim (Src3a.mla_reader_config_new MP s out) (step s (CRConfigNew out))) /\
+  (forall s c k, sim (Src3a.mla_reader_config_add_private_key MP s c k) (step s (CAddPriv c k))) /\
+  (forall s cfg w f out io, sim (Src3a.mla_archive_new MP s cfg w f out io) (step s (CArchiveNew cfg w f out io))) /\
+  (forall s a nm out io, sim (Src3a.mla_archive_file_new MP s a nm out io) (step s (CFileNew a nm out io))) /\
+  (forall s a f buf l io, sim (Src3a.mla_archive_file_append MP s a f buf l io) (step s (CAppend a f buf l io))) /\
+  (forall s a io, sim (Src3a.mla_archive_flush MP s a io) (step s (CFlush a io))) /\
+  (forall s a f io, sim (Src3a.mla_archive_file_close MP s a f io) (step s (CFileClose a f io))) /\
+  (forall s a io, sim (Src3a.mla_archive_close MP s a io) (step s (CArchiveClose a io))).
+Proof.
+  intros FNMAX TS TC TA TE H order MP step.
+  exact (conj (mla_config_default_new_src FNMAX TS TC TA TE H order) (conj (mla_config_add_public_keys_src FNMAX TS TC TA TE H order) (conj (mla_config_set_compression_level_src FNMAX TS TC TA TE H order) (conj (mla_reader_config_new_src FNMAX TS TC TA TE H order) (conj (mla_reader_config_add_private_key_src FNMAX TS TC TA TE H order) (conj (mla_archive_new_src FNMAX TS TC TA TE H order) (conj (mla_archive_file_new_src FNMAX TS TC TA TE H order) (conj (mla_archive_file_append_src FNMAX TS TC TA TE H order) (conj (mla_archive_flush_src FNMAX TS TC TA TE H order) (conj (mla_archive_file_close_src FNMAX TS TC TA TE H order) (mla_archive_close_src FNMAX TS TC TA TE H order))))))))))).
+Qed.
+
+(* the reading side: mla_roarchive_extract(_internal) and mla_roarchive_info(_internal) = CApiRead's, under
+   the primitive table R_* (from_config_G, list_files, sort_bytes, linear_extract + deliver, read_header_S) *)
+Theorem C20_tie_extract :
+  forall CHUNK TAG BLOCK LIMIT FNMAX TS TC TA TE dh kdf wdec wtag ksf tagf dec (C : cbsrc) (s0 : cb_st C) decide fuel
+         (cfgp : bool) (cfgv : option (list bytes)) (rcb scb fcb : bool),
+  xout_of cfgv (Src3a.mla_roarchive_extract (list bytes) unit _ (fun _ => tt)
+       (R_from_config CHUNK TAG BLOCK LIMIT dh kdf wdec wtag ksf tagf dec C s0 true)
+       (R_list_files CHUNK TAG BLOCK ksf tagf dec C true) sort_bytes (R_file_callback decide)
+       (R_linear_extract CHUNK TAG BLOCK FNMAX TS TC TA TE ksf tagf dec C fuel true)
+       (if cfgp then Some cfgv else None) rcb scb fcb)
+  = xout_m (roarchive_extract CHUNK TAG BLOCK LIMIT FNMAX TS TC TA TE dh kdf wdec wtag ksf tagf dec
+              cfgp cfgv rcb scb fcb C s0 decide fuel).
+Proof. intros. apply roarchive_extract_src. Qed.
+Theorem C20_tie_info : forall LIMIT (C : cbsrc) (s0 : cb_st C) (rcb info_out : bool),
+  Src3a.mla_roarchive_info unit Format.header (fun _ => tt) (R_header_from LIMIT C s0) (fun _ => Format.VERSION) Format.h_layers rcb info_out
+  = roarchive_info LIMIT rcb info_out C s0.
+Proof. intros. apply roarchive_info_src. Qed.
+(* ... and their handle logic in the table of capi_step, for EVERY behaviour of the library calls and callbacks *)
+Theorem C20_tie_extract_handles :
+  forall FNMAX TS TC TA TE H order SrcT MlaT mk fc lf srt fcb_ le s cfg rcb scb fcb stt,
+  let x := Src3a.mla_roarchive_extract rcfg SrcT MlaT mk fc lf srt fcb_ le (mem_of s cfg) rcb scb fcb in
+  Src3a.xs_res x = Ret stt ->
+  sim (mem_to s cfg (Src3a.xs_cfg x), Src3a.xs_res x) (capi_step FNMAX TS TC TA TE H order true s (CExtract cfg rcb scb fcb stt)).
+Proof. intros. apply mla_roarchive_extract_handles_src. assumption. Qed.
+
+(* C20_no_crash / C20_null_handles carried to the TRANSLATED entry points: in every state of the handle table
+   each translated function returns a status — never NullDeref, never DanglingHandle, never a writer crash site *)
+Theorem C20_tie_no_crash_src : forall FNMAX TS TC TA TE H order s c,
+  is_ret (snd (src_step FNMAX TS TC TA TE H order s c)) = true.
+Proof. exact src_step_no_crash. Qed.
+Theorem C20_tie_null_handles_src : forall FNMAX TS TC TA TE H order s c, null_call s c = true ->
+  snd (src_step FNMAX TS TC TA TE H order s c) = Ret BadAPIArgument /\ cst_eq (fst (src_step FNMAX TS TC TA TE H order s c)) s.
+Proof. exact src_step_null. Qed.
+
+(* non-vacuity: the translated functions run — create a configuration, then close twice an archive slot *)
+Example C20_tie_nonvacuous :
+  let MP := model_prims 1024 0 1 2 3 (fun _ => []) (fun f => f) in
+  let '(s1, r1) := Src3a.mla_config_default_new MP c_init (RSlot 0) in
+  let '(s2, r2) := Src3a.mla_config_add_public_keys MP s1 (RSlot 0) (KValid 1) in
+  let '(s3, r3) := Src3a.mla_archive_new MP s2 (RSlot 0) true true (RSlot 1) IoOk in
+  let '(s4, r4) := Src3a.mla_archive_close MP s3 (RSlot 1) IoOk in
+  let '(s5, r5) := Src3a.mla_archive_close MP s4 (RSlot 1) IoOk in
+  [r1; r2; r3; r4; r5] = [Ret Success; Ret Success; Ret Success; Ret Success; Ret BadAPIArgument].
+Proof. vm_compute. reflexivity. Qed.
+
 Print Assumptions C20_adapter_is_cursor.
 Print Assumptions C20_extract_delivers.
 Print Assumptions C20_extract_write_failure.
@@ -217,3 +331,15 @@ Print Assumptions C20_extract_null_writer.
 Print Assumptions C20_info_reports_header.
 Print Assumptions C20_info_total.
 Print Assumptions C20_info_never_seeks.
+Print Assumptions C20_tie_status_from_error.
+Print Assumptions C20_tie_cb_write.
+Print Assumptions C20_tie_cb_write_failure.
+Print Assumptions C20_tie_eintr.
+Print Assumptions C20_tie_cbin_rd.
+Print Assumptions C20_tie_cbin_sk.
+Print Assumptions C20_tie_entry_points.
+Print Assumptions C20_tie_extract.
+Print Assumptions C20_tie_info.
+Print Assumptions C20_tie_extract_handles.
+Print Assumptions C20_tie_no_crash_src.
+Print Assumptions C20_tie_null_handles_src.
